@@ -54,17 +54,19 @@ var moreKinds = []string{"unix+tls", "unix+starttls", "ws+starttls", "udp+startt
 
 // Stall points.
 const (
-	ptConnect   = "connect"             // transport connected, not one byte sent (dns: tunnel session allocated, never written to)
-	ptTLSHello  = "tls-hello"           // first 20 bytes of a real TLS ClientHello record
-	ptHTTPReq   = "http-request"        // inside the HTTP request line of the websocket upgrade
-	ptWSOpen    = "ws-open"             // websocket upgrade completed, no socketace byte sent
-	ptFirstLine = "first-line"          // "X-SOCKETACE / HT"
-	ptBetween   = "between-requests"    // complete announce request sent, 200 read, nothing more
-	ptSTLS101   = "starttls-101"        // announce, upgrade with Security: StartTLS, 101 read, nothing more
-	ptSTLSHello = "starttls-hello"      // ... and then the first 20 bytes of a ClientHello
-	ptUpSilent  = "upgraded-silent"     // complete handshake (101 read), silence
-	ptUpGarbage = "upgraded-garbage"    // complete handshake, 64 bytes that are no smux frame, silence
-	ptUpHalf    = "upgraded-half-frame" // complete handshake, 5 of the 8 bytes of a valid smux frame header, silence
+	ptConnect    = "connect"             // transport connected, not one byte sent (dns: tunnel session allocated, never written to)
+	ptTLSHello   = "tls-hello"           // first 20 bytes of a real TLS ClientHello record
+	ptHTTPReq    = "http-request"        // inside the HTTP request line of the websocket upgrade
+	ptWSOpen     = "ws-open"             // websocket upgrade completed, no socketace byte sent
+	ptFirstLine  = "first-line"          // "X-SOCKETACE / HT"
+	ptBetween    = "between-requests"    // complete announce request sent, 200 read, nothing more
+	ptSTLS101    = "starttls-101"        // announce, upgrade with Security: StartTLS, 101 read, nothing more
+	ptSTLSHello  = "starttls-hello"      // ... and then the first 20 bytes of a ClientHello
+	ptUpSilent   = "upgraded-silent"     // complete handshake (101 read), silence
+	ptUpGarbage  = "upgraded-garbage"    // complete handshake, 64 bytes that are no smux frame, silence
+	ptDNSVersion = "dns-version-only"    // dns: query-type probe + version request only (the request that allocates the session the server will Accept), then silence: not one packet request
+	ptDNSOptions = "dns-options-only"    // dns: version + every option / probe command of the tunnel negotiation, but no packet request and no poll loop, then silence
+	ptUpHalf     = "upgraded-half-frame" // complete handshake, 5 of the 8 bytes of a valid smux frame header, silence
 )
 
 // baseOf splits an endpoint kind into transport and security ("", "tls" = TLS endpoint, "starttls").
@@ -86,6 +88,9 @@ func pointsOf(kind string) []string {
 	if base != "udp" {
 		// (a KCP session exists on the server only once its first datagram has arrived)
 		pts = append(pts, ptConnect)
+	}
+	if base == "dns" {
+		pts = append(pts, ptDNSVersion, ptDNSOptions)
 	}
 	if sec == "tls" {
 		pts = append(pts, ptTLSHello)
@@ -264,19 +269,10 @@ func (b *badPeer) carrier(p *e2e.Pair, kind string) error {
 		}
 		b.conn = c
 	case "dns":
-		a, err := net.ResolveUDPAddr("udp", hostOf(p))
+		dc, err := b.dnsDial(p)
 		if err != nil {
 			return err
 		}
-		comm, err := sdns.NewNetConnectionClientCommunicator(&sdns.ClientConfig{Servers: sdns.AddressList{a}})
-		if err != nil {
-			return err
-		}
-		dc, err := sdns.NewClientDnsConnection(p.Opt.Domain, comm)
-		if err != nil {
-			return err
-		}
-		b.dns = dc
 		if err := dc.Handshake(); err != nil {
 			return fmt.Errorf("dns tunnel handshake: %v", err)
 		}
@@ -286,6 +282,66 @@ func (b *badPeer) carrier(p *e2e.Pair, kind string) error {
 	}
 	b.rd = bufio.NewReader(b.conn)
 	b.setStep("carrier")
+	return nil
+}
+
+// dnsDial creates the real tunnel client object over the real UDP communicator (nothing is sent yet).
+func (b *badPeer) dnsDial(p *e2e.Pair) (*sdns.ClientDnsConnection, error) {
+	a, err := net.ResolveUDPAddr("udp", hostOf(p))
+	if err != nil {
+		return nil, err
+	}
+	comm, err := sdns.NewNetConnectionClientCommunicator(&sdns.ClientConfig{Servers: sdns.AddressList{a}})
+	if err != nil {
+		return nil, err
+	}
+	dc, err := sdns.NewClientDnsConnection(p.Opt.Domain, comm)
+	if err != nil {
+		return nil, err
+	}
+	b.dns = dc
+	return dc, nil
+}
+
+// dnsPartial runs the first steps of ClientDnsConnection.Handshake() in its order and stops before the
+// packet exchange (no packet request is ever sent, the poll loop is never started).
+func (b *badPeer) dnsPartial(p *e2e.Pair, options bool) error {
+	dc, err := b.dnsDial(p)
+	if err != nil {
+		return err
+	}
+	dc.Serializer.UseEdns0 = false
+	if err := dc.AutoDetectQueryType(); err != nil {
+		return fmt.Errorf("dns query type detection: %v", err)
+	}
+	b.setStep("dns-query-type")
+	if err := dc.VersionHandshake(); err != nil {
+		return fmt.Errorf("dns version handshake: %v", err)
+	}
+	b.setStep("dns-version")
+	if !options {
+		return nil
+	}
+	dc.AutodetectEdns0Extension()
+	dc.AutodetectEncodingUpstream()
+	if err := dc.SetEncodingUpstream(); err != nil {
+		return fmt.Errorf("dns set upstream encoding: %v", err)
+	}
+	b.setStep("dns-upstream-encoding")
+	dc.AutodetectEncodingDowntream()
+	if err := dc.SetEncodingDownstream(); err != nil {
+		return fmt.Errorf("dns set downstream encoding: %v", err)
+	}
+	b.setStep("dns-downstream-encoding")
+	dc.AutodetectLazyMode()
+	f, err := dc.AutodetectFragmentSize()
+	if err != nil {
+		return fmt.Errorf("dns fragment size detection: %v", err)
+	}
+	if err := dc.SwitchFragmentSize(f); err != nil {
+		return fmt.Errorf("dns fragment size switch: %v", err)
+	}
+	b.setStep("dns-fragment-size")
 	return nil
 }
 
@@ -338,6 +394,10 @@ func (b *badPeer) run(p *e2e.Pair, kind string, seed int64) error {
 		return err
 	}
 	switch b.Point {
+	case ptDNSVersion:
+		return b.dnsPartial(p, false)
+	case ptDNSOptions:
+		return b.dnsPartial(p, true)
 	case ptConnect:
 		if base, _ := baseOf(kind); base == "dns" {
 			return b.carrier(p, kind)
